@@ -44,7 +44,7 @@ def run_t2(rep, comp, rng, tier, kind="rel", budget_scale=1.0):
             ulines.append(l)
     lines = ulines
     exe = vlib.build_driver(comp.driver, kind, getattr(comp, "extra_cflags", ""))
-    model = os.path.join(vlib.OCAML, "modelrun")
+    model = vlib.build_model(comp.slice)
     t0 = time.time()
     mout, _ = vlib.run_sharded(model, lines, timeout=600)
     t1 = time.time()
@@ -157,12 +157,6 @@ def main():
             rep.notes.append("coq output tail: " + (pr["output"] if not pr["ok"] else out)[-1500:])
             if bad:
                 rep.notes.append("forbidden commands: " + "; ".join(bad[:10]))
-        try:
-            vlib.build_model()
-        except vlib.BuildError as e:
-            proof_ok = False
-            rep.broken.append("model extraction")
-            rep.notes.append(str(e)[-1500:])
     rep.assumptions = list(getattr(prop, "ASSUMPTIONS", []))
 
     kinds = ["rel"]
@@ -171,10 +165,7 @@ def main():
 
     # ---------------- T2: correspondence ----------------
     mism_all = []
-    have_model = os.path.exists(os.path.join(vlib.OCAML, "modelrun"))
     for comp in prop.components():
-        if not have_model:
-            break
         for kind in kinds:
             if kind != "rel" and not getattr(comp, "sanitize", True):
                 continue
